@@ -10,6 +10,20 @@ TRUSTED_COMMON = [
 ]
 
 PROPS = {
+    "C05": dict(
+        suites=[50],
+        design_ref="DESIGN.md section 5, C05",
+        exhaustive=True,
+        rule=("suite 50, exhaustive: every 16-bit option number and content-format id (plus ids 65536, 2^32, 2^63, usize::MAX) through From/TryFrom both ways, every named option / content format / request type / response type through "
+              "name->number->name, all 256 code bytes through From<u8>, Into<u8>, Display, Header::set_code/get_code and the packet codec, the UnKnown/Reserved(b) forms, all 256 first header bytes x 4 set_type and x 256 set_version, "
+              "is_error for all 28 ResponseType values, observe values 0..299; verdict computed from Registry.v only; class = kind of conversion; non-trivial = inside the finite domain; distinct = distinct input"),
+        level_text=("Finite domains decided completely inside Coq (forallb over the whole range by vm_compute, lifted with forallb_forall; every statement carries its bound): the crate's tables equal the independently transcribed IANA/RFC "
+                    "registries for all 65536 option numbers and content-format ids, all 256 codes, 4 types, observe values; number->name->number and name->number->name are identities; unassigned numbers map to Unknown/None/Reserved; "
+                    "the dotted code text prints and parses back for all 256 codes; is_error s <-> byte >= 0x80; header getters/setters touch exactly their bit field. C05_model_passes_oracle: the model meets the registry-only oracle on the whole domain."),
+        level_note=("The model tables (Numbers.v, Header.v) are tied to the compiled crate by running every one of the ~4*10^5 conversions through the implementation on each run (complete enumeration, dev and release), so for this property the tie is as strong as a translation. "
+                    "Registry.v is the author's transcription of the IANA registries. Content-format ids above 65535 are sampled, not proved."),
+        modelled="src/packet.rs:51-348 (CoapOption, ContentFormat, ObserveOption conversions); src/header.rs MessageClass/RequestType/ResponseType/MessageType tables, Display, set_code, is_error, bit-field accessors",
+    ),
     "C01": dict(
         suites=[10],
         features=[()], features_thorough=[(), ("udp",), ("nostd",)],
@@ -82,7 +96,6 @@ PROPS = {
 
 # properties not yet claimed (being built); kept current with MANIFEST.not_applicable
 NOT_APPLICABLE = {
-    "C05": "check under construction in this development (model and theorems not yet committed)",
     "C06": "check under construction in this development (model and theorems not yet committed)",
     "C08": "check under construction in this development (model and theorems not yet committed)",
     "C09": "check under construction in this development (model and theorems not yet committed)",
